@@ -435,12 +435,14 @@ func c02Midpoint(p *ana.Prog, r *ana.Result) {
 		// x.Offset + (y.Offset - x.Offset)/2 ; x, y are by-value params spilled to allocs
 		add, ok := offStore.Val.(*ssa.BinOp)
 		if ok && add.Op == token.ADD {
-			if quo, ok := add.Y.(*ssa.BinOp); ok && quo.Op == token.QUO {
-				k, _ := ana.ConstInt(quo.Y)
-				if sub, ok := quo.X.(*ssa.BinOp); ok && sub.Op == token.SUB && k == 2 {
-					px, py := ana.AccessPath(add.X), ana.AccessPath(sub.X)
-					if px == "x.Offset" && py == "y.Offset" && ana.AccessPath(sub.Y) == "x.Offset" {
-						okOff = true
+			for _, pr := range [][2]ssa.Value{{add.X, add.Y}, {add.Y, add.X}} {
+				if quo, ok := pr[1].(*ssa.BinOp); ok && quo.Op == token.QUO {
+					k, _ := ana.ConstInt(quo.Y)
+					if sub, ok := quo.X.(*ssa.BinOp); ok && sub.Op == token.SUB && k == 2 {
+						px, py := ana.AccessPath(pr[0]), ana.AccessPath(sub.X)
+						if px == "x.Offset" && py == "y.Offset" && ana.AccessPath(sub.Y) == "x.Offset" {
+							okOff = true
+						}
 					}
 				}
 			}
@@ -525,14 +527,23 @@ func c02Midpoint(p *ana.Prog, r *ana.Result) {
 // safeMidpointForm: v == x + (y - x)/2.
 func safeMidpointForm(v ssa.Value, x, y *ssa.Parameter) bool {
 	add, ok := v.(*ssa.BinOp)
-	if !ok || add.Op != token.ADD || add.X != ssa.Value(x) {
+	if !ok || add.Op != token.ADD {
 		return false
 	}
-	quo, ok := add.Y.(*ssa.BinOp)
-	if !ok || quo.Op != token.QUO {
-		return false
+	// x + (y-x)/2, the two summands in either order
+	for _, pr := range [][2]ssa.Value{{add.X, add.Y}, {add.Y, add.X}} {
+		if pr[0] != ssa.Value(x) {
+			continue
+		}
+		quo, ok := pr[1].(*ssa.BinOp)
+		if !ok || quo.Op != token.QUO {
+			continue
+		}
+		k, _ := ana.ConstInt(quo.Y)
+		sub, ok := quo.X.(*ssa.BinOp)
+		if ok && k == 2 && sub.Op == token.SUB && sub.X == ssa.Value(y) && sub.Y == ssa.Value(x) {
+			return true
+		}
 	}
-	k, _ := ana.ConstInt(quo.Y)
-	sub, ok := quo.X.(*ssa.BinOp)
-	return ok && k == 2 && sub.Op == token.SUB && sub.X == ssa.Value(y) && sub.Y == ssa.Value(x)
+	return false
 }
